@@ -273,7 +273,15 @@ def trigger(a, whole=None):
                         break
             if j < len(toks) and toks[j] in ('*', '/', '**'):
                 found.append('component-swallows-following-factors')
-    return sorted(set(found))
+    # defects that are still open name a failure first; the patterns of repaired defects (unary minus / .not. /
+    # component precedence, fixed in /repo) only give a readable name to a regression and are never listed as known
+    order = ['eqv-neqv-unsupported', 'real-literal-with-kind', 'product-then-division-chain-regrouped',
+             'unary-minus-binds-tighter-than-power', 'not-binds-tighter-than-relational',
+             'component-swallows-following-factors']
+    return sorted(set(found), key=order.index)
+
+
+OPEN_TRIGGERS = ('eqv-neqv-unsupported', 'real-literal-with-kind', 'product-then-division-chain-regrouped')
 
 
 def shape(a, depth=3):
@@ -317,11 +325,7 @@ class Prof:
 
 
 def comp(ch, node, prof, ctx):
-    """derived-type component; the clean profile keeps it in parentheses (known: a component followed by * / **
-    swallows the following factors)"""
-    if prof.clean:
-        ctx.exclude('s%m <op> .. without parentheses (known: component-swallows-following-factors)')
-        return ['paren', node]
+    """derived-type component (the former exclusion 'component followed by * / **' is gone: repaired in /repo)"""
     return node
 
 
@@ -382,9 +386,6 @@ def gen_ast(ch, typ, depth, prof, ctx):
             return maybe_paren(a)
         if kind in ('neg', 'pos'):
             x = sub(typ)
-            if leftmost_is_power(x) and prof.clean:
-                ctx.exclude('-a**b (known: unary-minus-binds-tighter-than-power)')
-                x = ['paren', x]
             return maybe_paren([kind, x])
         if kind == '**':
             base = sub(typ)
@@ -416,9 +417,6 @@ def gen_ast(ch, typ, depth, prof, ctx):
         return maybe_paren(['bin', op, sub(t), sub(t)])
     if kind == 'not':
         x = sub('log')
-        if x[0] == 'bin' and prec(x) == 4 and prof.clean:
-            ctx.exclude('.not. a<b (known: not-binds-tighter-than-relational)')
-            x = ['paren', x]
         return ['not', spell(ch, '.not.'), x]
     return maybe_paren(['bin', spell(ch, '.and.' if kind == 'and' else '.or.'), sub('log'), sub('log')])
 
@@ -565,7 +563,7 @@ def check_batch(case, ctx):
     for it, js, ftree in zip(items, items_json, ftrees):
         classes = [f'type={ast_type(it.ast)}', 'layout=' + ('plain' if js.get('ws') in (None, [1]) else 'varied')]
         trig = trigger(it.ast)
-        classes.append('known-trigger-present' if trig else 'clean')
+        classes.append('known-trigger-present' if any(t in OPEN_TRIGGERS for t in trig) else 'clean')
         ops = {canon_op(n[1]) for n in walk(it.ast) if n[0] == 'bin'}
         for label, member in (('has-power', '**' in ops), ('has-division', '/' in ops),
                               ('has-relational', bool(ops & set(REL_SPELL))), ('has-logical', bool(ops & set(LOGIC))),
